@@ -39,9 +39,12 @@ class Record:
 
 
 class ClassRef:
-    def __init__(self, name, kind="class"):
+    def __init__(self, name, kind="class", bases=(), call=None, iter=None):
         self.name = name
         self.kind = kind
+        self.bases = tuple(bases)
+        self.call = call      # optional python callable standing for the constructor
+        self.iter = iter      # optional python callable producing the members (enum classes)
 
 
 class ModuleRef:
@@ -281,7 +284,7 @@ class Interp:
             return self.globals[name]
         if name in HOST_TYPES:
             return HOST_TYPES[name]
-        if name in ("isinstance", "hasattr", "len", "any", "all", "repr", "sorted", "min", "max",
+        if name in ("isinstance", "issubclass", "hasattr", "len", "any", "all", "repr", "sorted", "min", "max",
                     "enumerate", "zip", "range", "abs", "getattr", "filter", "map", "next"):
             return ("builtin", name)
         if name == "NotImplemented":
@@ -296,6 +299,8 @@ class Interp:
         return bool(v)
 
     def iterate(self, v):
+        if isinstance(v, ClassRef) and v.iter is not None:
+            return list(v.iter())
         if isinstance(v, (list, tuple, str, dict, set, frozenset, range)):
             return list(v)
         if hasattr(v, "__iter__") and not isinstance(v, (Record, ClassRef, ModuleRef)):
@@ -533,6 +538,9 @@ class Interp:
     def e_Subscript(self, n, env):
         obj = self.eval(n.value, env)
         sl = n.slice
+        if hasattr(obj, "__vsubscript__"):
+            idx = self.eval(sl, env)
+            return obj.__vsubscript__(idx)
         try:
             if isinstance(sl, ast.Slice):
                 lo = self.eval(sl.lower, env) if sl.lower is not None else None
@@ -621,6 +629,10 @@ class Interp:
     def apply(self, f, args, kwargs):
         if isinstance(f, Closure):
             return f(*args, **kwargs)
+        if isinstance(f, ClassRef) and f.call is not None:
+            return f.call(*args, **kwargs)
+        if f is type and len(args) == 1:
+            return type(args[0]) if not isinstance(args[0], (Record, ClassRef, ModuleRef)) else ClassRef("type")
         if isinstance(f, type) and f in (str, int, bool, float, list, tuple, set, dict):
             try:
                 if f is str and args and isinstance(args[0], Record):
@@ -672,6 +684,19 @@ class Interp:
                         return True
                 else:
                     raise AnalysisError(f"{self.name}: isinstance against {x!r}")
+            return False
+        if name == "issubclass":
+            obj, t = args
+            ts = t if isinstance(t, tuple) else (t,)
+            if not isinstance(obj, ClassRef):
+                if isinstance(obj, type):
+                    return any(isinstance(x, type) and issubclass(obj, x) for x in ts)
+                raise Raised("TypeError", ("issubclass() arg 1 must be a class",))
+            for x in ts:
+                if isinstance(x, ClassRef) and (x.name == obj.name or x.name in getattr(obj, "bases", ())):
+                    return True
+                if x is object:
+                    return True
             return False
         if name == "hasattr":
             obj, a = args
